@@ -300,6 +300,8 @@ fn case(rng: &mut Rng, idx: usize, which: u8) -> String {
     // trailing flags: the FFT filters only emit whole batches, so the transmission must continue for at least one
     // batch after the last frame (as any real signal does) for that frame to come out of the filter
     let bits = frame_bits(&payloads, preamble, &between, if which == 0 { 100 } else { 400 });
+    // 1200 chain: a third of the cases are two transmissions separated by 70..600 symbol times of silence
+    let gap_symbols = if which == 0 && rng.chance(1, 3) { rng.range(70, 600) } else { 0 };
     let phase0 = rng.below(6283) as f64 / 1000.0;
     let toff = rng.below(1000) as f64 / 1000.0;
     let mt = rng.chance(1, 2);
@@ -310,7 +312,14 @@ fn case(rng: &mut Rng, idx: usize, which: u8) -> String {
     let (store, rxbits, levels, sr) = if which == 0 {
         let sr = *rng.pick(&[44100.0f64, 48000.0, 50000.0]);
         let levels = nrzi_encode(&bits, rng.below(2) as u8);
-        let audio = afsk(&levels, sr, phase0, toff);
+        let mut audio = afsk(&levels, sr, phase0, toff);
+        if gap_symbols > 0 {
+            // the transmitter goes off the air (silence) and keys up again with a new preamble: the same
+            // frames once more, at another position in the stream
+            audio.extend(std::iter::repeat(0.0f32).take((gap_symbols as f64 * sr / 1200.0) as usize));
+            let levels2 = nrzi_encode(&bits, rng.below(2) as u8);
+            audio.extend(afsk(&levels2, sr, rng.below(6283) as f64 / 1000.0, rng.below(1000) as f64 / 1000.0));
+        }
         let (s, b) = chain1200(audio, sr as Float, &mut blocks);
         (s, b, levels, sr)
     } else {
@@ -323,6 +332,7 @@ fn case(rng: &mut Rng, idx: usize, which: u8) -> String {
     rustradio::verif::set_stream_size(0);
     let res = run_blocks(blocks, mt);
     let got = store.lock().unwrap().clone();
+    let payloads: Vec<Vec<u8>> = if gap_symbols > 0 { payloads.iter().chain(payloads.iter()).cloned().collect() } else { payloads };
     let fe = front_end_ok(&rxbits.lock().unwrap(), &levels);
     if std::env::var("RRH_DEBUG").is_ok() {
         let r = rxbits.lock().unwrap();
@@ -351,7 +361,7 @@ fn case(rng: &mut Rng, idx: usize, which: u8) -> String {
         eprintln!("rx bits   {}: {}", r.len(), r.iter().skip(180).take(140).map(|b| b.to_string()).collect::<String>());
     }
     let detail = format!(
-        "{} #{idx} sr={sr} stream={stream_size} frames={nframes} lens={:?} preamble={preamble} phase={phase0:.3} toff={toff:.3} {}",
+        "{} #{idx} sr={sr} stream={stream_size} frames={nframes} lens={:?} preamble={preamble} phase={phase0:.3} toff={toff:.3} gap={gap_symbols} {}",
         match which { 0 => "afsk1200", 1 => "g3ruh9600-zerocrossing", _ => "g3ruh9600-symbolsync(example as written)" },
         payloads.iter().map(|p| p.len()).collect::<Vec<_>>(),
         if mt { "mt" } else { "st" }
